@@ -242,6 +242,22 @@ def run_c08(h, sch, rng, tier, verdict, counters, stats, samples):
         cases.append(dict(id=f'c8-{i}', root=root, opts=opts, ops=ops))
         stats[f'maxframe_{opts["maxframe"]}'] += 1
         stats[f'maxdict_{opts["maxdict"]}'] += 1
+    # records dominated by dictionary hits: 60-70 attributes whose keys and values come from a small
+    # pool and whose key set rotates, so every record re-encodes the whole map as references
+    pool_k = [('6b' + '%02x' % i) * (4 + i % 7) for i in range(90)]
+    pool_v = [('76' + '%02x' % i) * (3 + i % 5) for i in range(40)]
+    for i in range(4 if tier == 'quick' else 24):
+        nattr = 60 + rng.below(11)
+        ops = []
+        for r in range(12 + rng.below(20)):
+            off = rng.below(20)
+            attrs = [[pool_k[(off + j) % len(pool_k)], [1, pool_v[(off * 3 + j) % len(pool_v)]]] for j in range(nattr)]
+            v = [[[]], ['6d', '', '', '0', [], [], '0', False], ['', [], '0'], ['', '', '', [], '0'], attrs, [str(r), '2', [1, str(r)], []]]
+            ops += [{'op': 'set', 'v': v}, {'op': 'w'}]
+        ops.append({'op': 'f'})
+        opts = dict(compression=rng.below(2), maxframe=rng.choice([500, 1000, 4000]), maxdict=0, flags=0, descriptor=False, userdata={})
+        cases.append(dict(id=f'c8-dict-hits-{i}', root='Metrics', opts=opts, ops=ops))
+        stats[f'maxframe_{opts["maxframe"]}'] += 1
     outs, stderr, rc = h.run_go(cases)
     items = [(c['root'], o['stream'], o.get('frames'), c['opts']['compression']) for c, o in zip(cases, outs)]
     sizes = {int(kv.split(':')[0]): int(kv.split(':')[1]) for kv in h.sizes.split()}
@@ -257,8 +273,12 @@ def run_c08(h, sch, rng, tier, verdict, counters, stats, samples):
         restart_every = bool(c['opts']['flags'] & 1)
         written = o['written']
         if m.get('end') != 'eos' or [strip_mask(r) for r in m.get('recs', [])] != written or m.get('reenc') != 'ok':
-            # C01/C02 territory (known findings live there); C08 needs a decodable stream to measure
-            counters['skipped_not_roundtrip'] += 1
+            # the limits must not cost correctness: a stream written under frame / dictionary limits and
+            # restart flags that does not decode to what was written means a reset was announced but not
+            # performed (or performed but not announced)
+            verdict.violation(dict(case=c, finding='not-decodable', go_read_err=(o.get('read') or {}).get('err'), model=m.get('raw')),
+                              f'{c["id"]}: stream written with limits F={F} L={L} flags={c["opts"]["flags"]} does not decode to the written records (model end: {m.get("end")}, reenc: {m.get("reenc")})')
+            counters['not_roundtrip'] += 1
             continue
         # walk tokens: f:<fl>:<nrec>:<len> followed by nrec m: tokens
         frames = []
@@ -309,6 +329,10 @@ def run_c08(h, sch, rng, tier, verdict, counters, stats, samples):
                 dict_lb_end = sd + sum(cnt * dict_struct_size.get(did, 0) for did, cnt in tdd.items())
                 if (nxt['fl'] & 1) and not restart_every:
                     counters['dict_resets'] += 1
+                # the dictionary limit holds across frames too: a frame may only follow without
+                # announcing a dictionary reset if the limit was not reached at its predecessor's end
+                if dict_lb_end >= L and not (nxt['fl'] & 1):
+                    bad = ('dict-limit-across-frames', fi, dict_lb_end, L); break
                 if closed_by_limit and not restart_every and bits < 8 * F and not (nxt['fl'] & 1):
                     bad = ('frame-closed-without-reason', fi, bits, 8 * F); break
         if bad:
@@ -380,6 +404,12 @@ def run_c06(h, sch, rng, tier, verdict, counters, stats, samples):
             elif op in ('r', 'rf'):
                 if op == 'rf' and st['reads'] != 0:
                     bad = ('frame-bounded-read-touched-source', i, st['reads'])
+                if res.startswith('rec:') and st.get('empty', 0) != 0:
+                    # "readable at once": the record was available, yet the reader asked the source for
+                    # more when it had nothing left - on a pipe or a socket this Read would have blocked
+                    bad = ('read-of-flushed-record-would-block', i, st.get('empty'))
+                if op == 'open' and res == 'ok' and st.get('empty', 0) != 0:
+                    bad = ('open-would-block', i, st.get('empty'))
                 if res.startswith('rec:'):
                     if nread >= len(written) or strip_mask(res[4:]) != written[nread]:
                         bad = ('wrong-or-fabricated-record', i, nread)
